@@ -86,6 +86,7 @@ def step (st : St) (cmd : String) (args : List String) : St × String :=
         | .ok none => "None"
         | .error (.keyError _) => "exn KeyError"
         | .error .invalidNode => "exn InvalidNode"
+        | .error .assertion => "exn AssertionError"
         | .error _ => "exn Other")
     | _, _ => bad
   | _, _ => bad
